@@ -275,12 +275,17 @@ def _root(v):
     return v, off, conv
 
 
-@rule("B1e", ["C13", "C04", "C09", "C01"], "CPU buffer copy primitives, evaluated on an abstract storage for every kind of source: exact extents, no resize, copies vs views")
+@rule("B1e", ["C13", "C04", "C09", "C01", "C05"], "CPU buffer copy primitives, evaluated on an abstract storage for every kind of source: exact extents, no resize, copies vs views")
 def b1e(cx):
     m = cx.m
     OFF, SOFF, DOFF, NB = (Sym(Poly.atom(x)) for x in ("offset", "source_offset", "dest_offset", "nbytes"))
     pO, pS, pD, pN = (P(x) for x in (OFF, SOFF, DOFF, NB))
     n = 0
+    # C05 (the documented layout) rests on ONE of the primitives: the bulk store of number data lists the value's
+    # elements in index order (Array._to_buffer hands the value over already permuted to the class's memory order)
+    only_nplike = cx.prop == "C05"
+    if only_nplike:
+        cx.partial = True
     for clsname in ("BufferByteArray", "BufferNumpy"):
         for meth in ("update_from_native", "to_native", "copy_to_native", "update_from_buffer", "to_nplike", "update_from_nplike", "to_bytearray"):
             m.func(f"context_cpu::{clsname}.{meth}")
@@ -293,100 +298,101 @@ def b1e(cx):
             cx.recog(len(res) == 1, None, f"{clsname}.{what}: {len(res)} evaluation paths")
             return res[0]
 
-        # ---- update_from_buffer, every kind of bytes-like source
-        N, K = Poly.atom("n"), Poly.atom("k")
-        for label, mk in (("bytes / bytearray of n bytes", lambda L: L.data("src", N)),
-                          ("typed memoryview (numpy array.data) of k float64 items", lambda L: L.data("src", K * Poly.const(8), length=K)),
-                          ("typed memoryview of k int16 items", lambda L: L.data("src", K * Poly.const(2), length=K)),
-                          ("memoryview of n bytes (itemsize 1)", lambda L: L.data("src", N, length=N)),
-                          ("buffer object of k float64 items WITHOUT an nbytes attribute (array.array, ctypes array)", lambda L: L.noattr(L.data("src", K * Poly.const(8), length=K), "nbytes"))):
+        if not only_nplike:
+            # ---- update_from_buffer, every kind of bytes-like source
+            N, K = Poly.atom("n"), Poly.atom("k")
+            for label, mk in (("bytes / bytearray of n bytes", lambda L: L.data("src", N)),
+                              ("typed memoryview (numpy array.data) of k float64 items", lambda L: L.data("src", K * Poly.const(8), length=K)),
+                              ("typed memoryview of k int16 items", lambda L: L.data("src", K * Poly.const(2), length=K)),
+                              ("memoryview of n bytes (itemsize 1)", lambda L: L.data("src", N, length=N)),
+                              ("buffer object of k float64 items WITHOUT an nbytes attribute (array.array, ctypes array)", lambda L: L.noattr(L.data("src", K * Poly.const(8), length=K), "nbytes"))):
+                L = Lab(m, clsname)
+                src = mk(L)
+                r = one_path(L.run("update_from_buffer", [OFF, src]), "update_from_buffer", L)
+                st = stores(L)
+                n += 1
+                why = ""
+                if r["exc"] is not None:
+                    why = f"raises {r['exc'].etype}: {r['exc']}"
+                elif len(st) != 1 or st[0][1] is not L.buf.attrs["buffer"]:
+                    why = f"{len(st)} stores to the storage"
+                else:
+                    _, s_, lo, hi, v, resized = st[0]
+                    root, roff, conv = _root(v)
+                    if lo != pO or hi - lo != src.nbytes:
+                        why = f"writes [{lo!r}, {hi!r}) for a source of {src.nbytes!r} bytes"
+                    elif resized:
+                        why = f"stores {v.nbytes!r} bytes into a slice of {hi - lo!r}: the bytearray is resized and every following byte moves"
+                    elif root is not src or roff != Poly.const(0) or v.nbytes != src.nbytes:
+                        why = "the stored data is not the whole source"
+                cx.check(not why, None, construct=f"{clsname}.update_from_buffer(offset, <{label}>)", detail="exactly the source's bytes at [offset, offset + nbytes)", bad_detail=why, anchor=anchor + ".update_from_buffer", sub="update_from_buffer")
+
+            # ---- update_from_native / copy_to_native
             L = Lab(m, clsname)
-            src = mk(L)
-            r = one_path(L.run("update_from_buffer", [OFF, src]), "update_from_buffer", L)
+            other = L.storage("source", L.kind)
+            r = one_path(L.run("update_from_native", [OFF, other, SOFF, NB]), "update_from_native", L)
             st = stores(L)
             n += 1
-            why = ""
-            if r["exc"] is not None:
-                why = f"raises {r['exc'].etype}: {r['exc']}"
-            elif len(st) != 1 or st[0][1] is not L.buf.attrs["buffer"]:
-                why = f"{len(st)} stores to the storage"
-            else:
-                _, s_, lo, hi, v, resized = st[0]
-                root, roff, conv = _root(v)
-                if lo != pO or hi - lo != src.nbytes:
-                    why = f"writes [{lo!r}, {hi!r}) for a source of {src.nbytes!r} bytes"
-                elif resized:
-                    why = f"stores {v.nbytes!r} bytes into a slice of {hi - lo!r}: the bytearray is resized and every following byte moves"
-                elif root is not src or roff != Poly.const(0) or v.nbytes != src.nbytes:
-                    why = "the stored data is not the whole source"
-            cx.check(not why, None, construct=f"{clsname}.update_from_buffer(offset, <{label}>)", detail="exactly the source's bytes at [offset, offset + nbytes)", bad_detail=why, anchor=anchor + ".update_from_buffer", sub="update_from_buffer")
-
-        # ---- update_from_native / copy_to_native
-        L = Lab(m, clsname)
-        other = L.storage("source", L.kind)
-        r = one_path(L.run("update_from_native", [OFF, other, SOFF, NB]), "update_from_native", L)
-        st = stores(L)
-        n += 1
-        ok = r["exc"] is None and len(st) == 1 and st[0][1] is L.buf.attrs["buffer"] and st[0][2] == pO and st[0][3] == pO + pN and not st[0][5]
-        if ok:
-            root, roff, conv = _root(st[0][4])
-            ok = root is other and roff == pS and st[0][4].nbytes == pN
-        cx.check(ok, None, construct=f"{clsname}.update_from_native(offset, source, source_offset, nbytes)", detail="storage[offset : offset+nbytes] = source[source_offset : source_offset+nbytes]",
-                 bad_detail=f"not the nbytes bytes at source_offset of the source stored at offset: {[(e[0], repr(e[2]), repr(e[3])) for e in L.log]}" + (f" raises {r['exc'].etype}" if r["exc"] else ""), anchor=anchor + ".update_from_native", sub="update_from_native")
-        # the source's native storage may be of the OTHER kind (update_from_xbuffer between a BufferNumpy and a
-        # BufferByteArray of one context hands it over as it is)
-        L = Lab(m, clsname)
-        okind = "ndarray" if L.kind == "bytearray" else "bytearray"
-        other = L.storage("source", okind)
-        r = one_path(L.run("update_from_native", [OFF, other, SOFF, NB]), "update_from_native", L)
-        st = stores(L)
-        n += 1
-        ok = r["exc"] is None and len(st) == 1 and st[0][1] is L.buf.attrs["buffer"] and st[0][2] == pO and st[0][3] == pO + pN and not st[0][5]
-        if ok:
-            root, roff, conv = _root(st[0][4])
-            ok = root is other and roff == pS and st[0][4].nbytes == pN
-        cx.check(ok, None, construct=f"{clsname}.update_from_native(offset, <native storage of a {'BufferNumpy' if okind == 'ndarray' else 'BufferByteArray'}>, source_offset, nbytes)", detail="the nbytes bytes at source_offset of the other buffer's storage stored at offset",
-                 bad_detail=(f"raises {r['exc'].etype}: {r['exc'].msg} -- every copy from such a buffer of the same context fails" if r["exc"] else "not the requested bytes"), anchor=anchor + ".update_from_native", sub="update_from_native")
-        L = Lab(m, clsname)
-        dest = L.storage("dest", L.kind)
-        r = one_path(L.run("copy_to_native", [dest, DOFF, SOFF, NB]), "copy_to_native", L)
-        st = stores(L)
-        n += 1
-        ok = r["exc"] is None and len(st) == 1 and st[0][1] is dest and st[0][2] == pD and st[0][3] == pD + pN and not st[0][5]
-        if ok:
-            root, roff, conv = _root(st[0][4])
-            ok = root is L.buf.attrs["buffer"] and roff == pS and st[0][4].nbytes == pN
-        cx.check(ok, None, construct=f"{clsname}.copy_to_native(dest, dest_offset, source_offset, nbytes)", detail="dest[dest_offset : +nbytes] = storage[source_offset : +nbytes]",
-                 bad_detail=f"not the nbytes bytes at source_offset stored at dest_offset of dest: {[(e[0], repr(e[2]), repr(e[3])) for e in L.log]}", anchor=anchor + ".copy_to_native", sub="copy_to_native")
-
-        # ---- extracting primitives: a COPY of [offset, offset+nbytes)
-        for meth in ("to_native", "to_bytearray"):
+            ok = r["exc"] is None and len(st) == 1 and st[0][1] is L.buf.attrs["buffer"] and st[0][2] == pO and st[0][3] == pO + pN and not st[0][5]
+            if ok:
+                root, roff, conv = _root(st[0][4])
+                ok = root is other and roff == pS and st[0][4].nbytes == pN
+            cx.check(ok, None, construct=f"{clsname}.update_from_native(offset, source, source_offset, nbytes)", detail="storage[offset : offset+nbytes] = source[source_offset : source_offset+nbytes]",
+                     bad_detail=f"not the nbytes bytes at source_offset of the source stored at offset: {[(e[0], repr(e[2]), repr(e[3])) for e in L.log]}" + (f" raises {r['exc'].etype}" if r["exc"] else ""), anchor=anchor + ".update_from_native", sub="update_from_native")
+            # the source's native storage may be of the OTHER kind (update_from_xbuffer between a BufferNumpy and a
+            # BufferByteArray of one context hands it over as it is)
             L = Lab(m, clsname)
-            r = one_path(L.run(meth, [OFF, NB]), meth, L)
-            v = r["result"]
+            okind = "ndarray" if L.kind == "bytearray" else "bytearray"
+            other = L.storage("source", okind)
+            r = one_path(L.run("update_from_native", [OFF, other, SOFF, NB]), "update_from_native", L)
+            st = stores(L)
             n += 1
-            why = ""
-            if r["exc"] is not None:
-                why = f"raises {r['exc'].etype}"
-            elif not isinstance(v, Obj) or getattr(v, "nbytes", None) is None:
-                why = f"returns {v!r}"
-            else:
-                root, roff, conv = _root(v)
-                if root is not L.buf.attrs["buffer"] or roff != pO or v.nbytes != pN:
-                    why = f"returns {v.nbytes!r} bytes from {roff!r}, requested nbytes from offset"
-                elif v.is_view:
-                    why = "returns a VIEW of the storage (a later write to the buffer changes the extracted data, and vice versa); an extracted copy must be independent"
-            cx.check(not why, None, construct=f"{clsname}.{meth}(offset, nbytes)", detail="independent copy of [offset, offset+nbytes)", bad_detail=why, anchor=anchor + "." + meth, sub=meth)
+            ok = r["exc"] is None and len(st) == 1 and st[0][1] is L.buf.attrs["buffer"] and st[0][2] == pO and st[0][3] == pO + pN and not st[0][5]
+            if ok:
+                root, roff, conv = _root(st[0][4])
+                ok = root is other and roff == pS and st[0][4].nbytes == pN
+            cx.check(ok, None, construct=f"{clsname}.update_from_native(offset, <native storage of a {'BufferNumpy' if okind == 'ndarray' else 'BufferByteArray'}>, source_offset, nbytes)", detail="the nbytes bytes at source_offset of the other buffer's storage stored at offset",
+                     bad_detail=(f"raises {r['exc'].etype}: {r['exc'].msg} -- every copy from such a buffer of the same context fails" if r["exc"] else "not the requested bytes"), anchor=anchor + ".update_from_native", sub="update_from_native")
+            L = Lab(m, clsname)
+            dest = L.storage("dest", L.kind)
+            r = one_path(L.run("copy_to_native", [dest, DOFF, SOFF, NB]), "copy_to_native", L)
+            st = stores(L)
+            n += 1
+            ok = r["exc"] is None and len(st) == 1 and st[0][1] is dest and st[0][2] == pD and st[0][3] == pD + pN and not st[0][5]
+            if ok:
+                root, roff, conv = _root(st[0][4])
+                ok = root is L.buf.attrs["buffer"] and roff == pS and st[0][4].nbytes == pN
+            cx.check(ok, None, construct=f"{clsname}.copy_to_native(dest, dest_offset, source_offset, nbytes)", detail="dest[dest_offset : +nbytes] = storage[source_offset : +nbytes]",
+                     bad_detail=f"not the nbytes bytes at source_offset stored at dest_offset of dest: {[(e[0], repr(e[2]), repr(e[3])) for e in L.log]}", anchor=anchor + ".copy_to_native", sub="copy_to_native")
 
-        # ---- to_nplike: a typed VIEW of the storage at offset
-        L = Lab(m, clsname)
-        dt = L.dtype("float64", 8)
-        r = one_path(L.run("to_nplike", [OFF, dt, (Sym(Poly.atom("d0")), 3)]), "to_nplike", L)
-        fb = [e for e in L.log if e[0] == "frombuffer"]
-        n += 1
-        ok = r["exc"] is None and len(fb) == 1 and fb[0][1] is L.buf.attrs["buffer"] and fb[0][2] is dt and P(fb[0][4]) == pO and P(fb[0][3]) == Poly.atom("d0") * Poly.const(3)
-        cx.check(ok, None, construct=f"{clsname}.to_nplike(offset, dtype, shape)", detail="frombuffer(storage, dtype, count=prod(shape), offset=offset): aliases the bytes it covers",
-                 bad_detail=f"not a view of prod(shape) items of dtype at offset: {[(e[0],) + tuple(repr(x) for x in e[2:]) for e in fb]}", anchor=anchor + ".to_nplike", sub="to_nplike")
+            # ---- extracting primitives: a COPY of [offset, offset+nbytes)
+            for meth in ("to_native", "to_bytearray"):
+                L = Lab(m, clsname)
+                r = one_path(L.run(meth, [OFF, NB]), meth, L)
+                v = r["result"]
+                n += 1
+                why = ""
+                if r["exc"] is not None:
+                    why = f"raises {r['exc'].etype}"
+                elif not isinstance(v, Obj) or getattr(v, "nbytes", None) is None:
+                    why = f"returns {v!r}"
+                else:
+                    root, roff, conv = _root(v)
+                    if root is not L.buf.attrs["buffer"] or roff != pO or v.nbytes != pN:
+                        why = f"returns {v.nbytes!r} bytes from {roff!r}, requested nbytes from offset"
+                    elif v.is_view:
+                        why = "returns a VIEW of the storage (a later write to the buffer changes the extracted data, and vice versa); an extracted copy must be independent"
+                cx.check(not why, None, construct=f"{clsname}.{meth}(offset, nbytes)", detail="independent copy of [offset, offset+nbytes)", bad_detail=why, anchor=anchor + "." + meth, sub=meth)
+
+            # ---- to_nplike: a typed VIEW of the storage at offset
+            L = Lab(m, clsname)
+            dt = L.dtype("float64", 8)
+            r = one_path(L.run("to_nplike", [OFF, dt, (Sym(Poly.atom("d0")), 3)]), "to_nplike", L)
+            fb = [e for e in L.log if e[0] == "frombuffer"]
+            n += 1
+            ok = r["exc"] is None and len(fb) == 1 and fb[0][1] is L.buf.attrs["buffer"] and fb[0][2] is dt and P(fb[0][4]) == pO and P(fb[0][3]) == Poly.atom("d0") * Poly.const(3)
+            cx.check(ok, None, construct=f"{clsname}.to_nplike(offset, dtype, shape)", detail="frombuffer(storage, dtype, count=prod(shape), offset=offset): aliases the bytes it covers",
+                     bad_detail=f"not a view of prod(shape) items of dtype at offset: {[(e[0],) + tuple(repr(x) for x in e[2:]) for e in fb]}", anchor=anchor + ".to_nplike", sub="to_nplike")
 
         # ---- update_from_nplike: layouts x conversion
         for layout in ("C", "F", "last axis strided", "0-d"):
@@ -425,7 +431,7 @@ def b1e(cx):
                         why = "the bytes stored are not the value's elements in index (row-major) order: " + _element_order_lost(v)
                 cx.check(not why, None, construct=f"{clsname}.update_from_nplike(offset, {'float32' if convert is True else 'float64'}, <{'big-endian ' if convert == 'byteorder' else ''}float64 array, {layout} layout>)", detail="the value's bytes (converted first when the dtypes differ) at [offset, offset + nbytes)",
                          bad_detail=why, anchor=anchor + ".update_from_nplike", sub="update_from_nplike")
-    cx.need(n >= 30, f"only {n} primitive cases evaluated")
+    cx.need(n >= (16 if only_nplike else 30), f"only {n} primitive cases evaluated")
 
 
 # ------------------------------------------------------------------------------------------ K1e kernel argument conversion
